@@ -1,4 +1,5 @@
 import B6.Lemmas.RefOverlay
+import B6.Lemmas.RefWorld
 /-!
 # C15 — Reference queries return the current referrers and always terminate
 
@@ -13,12 +14,15 @@ Model: `B6.Model.RefIndex` (ingest/features.go `FeatureReferencesByID`, ingest/m
                             on every graph (not only acyclic ones), each once at the world level
 * `overlay_find_refs_spec`  the same for `MutableOverlayWorld.FindReferences` over a base world,
                             under the copy discipline of `AddFeature` (`UpClosed`)
+* `world_history_query`, `overlay_history_query`  the two composed with the proofs that
+                            `ModifiedFeatures.Update` / `MutableOverlayWorld.AddFeature` / `Snapshot` keep the
+                            invariants: every edit history, no assumption left
 * `cycle_diverges`          the code BEFORE the repair: no fuel suffices on a 2-cycle of relations
 * `stale_base_referrer_counterexample`  the code BEFORE the second repair returns a base referrer
                             that the overlay replaced
 -/
 namespace B6.Props.C15
-open B6.Model.RefIndex B6.Spec.Referrers B6.Lemmas.RefIndex B6.Lemmas.RefDfs B6.Lemmas.RefOverlay
+open B6.Model.RefIndex B6.Spec.Referrers B6.Lemmas.RefIndex B6.Lemmas.RefDfs B6.Lemmas.RefOverlay B6.Lemmas.RefWorld
 
 /-! ## histories of the bare index -/
 
@@ -196,5 +200,35 @@ theorem stale_base_referrer_counterexample :
 /-- the hypotheses of `overlay_find_refs_spec` hold for that world (non-vacuity) -/
 example : Inv staleWorld.ix staleWorld.feats ∧ UpClosed staleWorld :=
   ⟨Inv_add Inv_empty _, by unfold UpClosed; decide⟩
+
+/-! ## every edit history of the real worlds (no assumption left) -/
+
+/-- **world_history_query.** Any sequence of `BasicMutableWorld.AddFeature` calls (additions and
+replacements, any reference graph) never panics in the reference maintenance of
+`ModifiedFeatures.Update`, and afterwards every `FindReferences` returns exactly the transitive
+referrers among the current features, each once. -/
+theorem world_history_query (adds : List Feature) (id : Id) (typed : List Nat) :
+    ∃ w L, runWorldAdds World.empty adds = some w ∧ basicFind w.feats w.ix id typed = some L ∧ L.Nodup ∧
+      ∀ s, s ∈ L ↔ (ReachPlus w.feats id s ∧ typeOk typed s = true) := by
+  obtain ⟨w, hw, hinv⟩ := runWorldAdds_inv adds World.empty ⟨Inv_empty, by simp [Uniq, World.empty]⟩
+  obtain ⟨L, h1, h2, h3⟩ := basicFind_spec hinv.1 id typed
+  exact ⟨w, L, hw, h1, h2, h3⟩
+
+/-- **overlay_history_query.** A `MutableOverlayWorld` over any base world with distinct IDs, after
+any history of `AddFeature` (with its copies of referrers) and `Snapshot`: the overlay's index is the
+inverse of the overlay's features, the copy discipline holds, and every `FindReferences` returns
+exactly the referrers among the current features of the layered world, each once. -/
+theorem overlay_history_query (base : List Feature) (hb : (base.map (·.id)).Nodup) (ops : List OOp)
+    (id : Id) (typed : List Nat) :
+    ∃ o L, runOOps ⟨base, [], []⟩ ops = some o ∧ o.find id typed = some L ∧ L.Nodup ∧
+      ∀ s, s ∈ L ↔ (ReachPlus o.merged id s ∧ typeOk typed s = true) := by
+  obtain ⟨o, ho, hinv⟩ := runOOps_inv ops ⟨base, [], []⟩ (oinv_init base hb)
+  obtain ⟨L, h1, h2, h3⟩ := overlay_find_spec o hinv.1 hinv.2.2.2 id typed
+  exact ⟨o, L, ho, h1, h2, h3⟩
+
+/-- non-vacuity: a base path replaced in the overlay, then a snapshot, then an area over it -/
+example : (runOOps ⟨[⟨p1, []⟩, ⟨p2, []⟩, ⟨p3, []⟩, ⟨w10, [p1, p2, p3, p1]⟩], [], []⟩
+    [.add ⟨w10, [p2, p3, p1, p2]⟩, .snap, .add ⟨(2, 20), [w10]⟩]).isSome = true := by decide
+
 
 end B6.Props.C15
